@@ -11,6 +11,12 @@ int main(int argc, const char** argv)
         printf("e.g. %s OP_DUP OP_HASH160 '[62e907b15cbf27d5425399ebf6f0fb50ebb88f18]' OP_EQUALVERIFY OP_CHECKSIG\n", argv[0]);
         return 1;
     }
-    std::vector<Value> result = Value::parse_args(argc, argv, 1);
-    fprintf(stdout, "%s\n", Value::serialize(result).c_str());
+    try {
+        std::vector<Value> result = Value::parse_args(argc, argv, 1);
+        fprintf(stdout, "%s\n", Value::serialize(result).c_str());
+    } catch (const std::exception& ex) {
+        // e.g. int(0x0102030405): script number overflow inside an inline function expression
+        fprintf(stderr, "error: %s\n", ex.what());
+        return 1;
+    }
 }
